@@ -273,6 +273,15 @@ def node_released_after_tag(F, R):
         R.ob('FIELD-ORDER', 'FIELD-ORDER::%s::node-handle-released-after-port_tag' % aid, later or inside or not holds_node_before,
              'fields %s: a SharedNode handle %s after the tag storage; the fields before `port_tag` %s a SharedNode: when this object is the last owner the node directory is removed (rmdir) while the tag file is still inside, fails and is never retried -> <root>/nodes/<id>/ stays' % (names, 'is dropped' if (later or inside) else 'is NOT dropped', 'hold' if holds_node_before else 'do not hold'), '%s:%s' % (a['file'], a['line']))
     R.floor('structs owning a port_tag', n, 8)
+    # the tag type itself: its node handle (which keeps the node directory alive) is declared behind its storage (the tag file)
+    for aid, a in sorted(F.adts.items()):
+        if a['crate'] != 'iceoryx2' or a['kind'] != 'struct' or not a['variants'] or not aid.startswith('iceoryx2::node::'):
+            continue
+        tf = a['variants'][0]['fields']
+        st = [k for k, x in enumerate(tf) if 'StaticStorage' in x['ty_s'] or 'static_storage' in x['ty_s']]
+        nd = [k for k, x in enumerate(tf) if _reaches(F, x['ty'], SN)]
+        if st and nd and aid != SN and aid.endswith('Tag'):
+            R.ob('FIELD-ORDER', 'FIELD-ORDER::%s::tag-storage-dropped-before-node-handle' % aid, min(nd) > max(st), 'fields %s: the tag file (storage) must be removed before the node handle is released - when it is the last one the node directory is removed and must be empty by then' % [x['name'] for x in tf], '%s:%s' % (a['file'], a['line']))
 
 
 def receiver_storage_capacity(F, R):
